@@ -10,6 +10,7 @@ from uuid import UUID
 import polars as pl
 
 from pydiverse.common import (
+    Bool,
     Decimal,
     Dtype,
     Float,
@@ -851,6 +852,9 @@ with PolarsImpl.impl_store.impl_manager as impl:
         if types.without_const(_sig[0]).is_int() and any(types.without_const(t).is_float() for t in _sig[1:]):
             # polars would cast the bounds to the integer type of the column
             x = x.cast(pl.Float64)
+        if types.without_const(_sig[0]) in (String(), Bool()):
+            # polars only clips numeric and temporal types
+            return pl.when(x.is_not_null()).then(pl.max_horizontal(pl.min_horizontal(x, upper), lower))
         return x.clip(lower, upper)
 
     @impl(ops.rand)
